@@ -529,8 +529,27 @@ fn sigmf_archive_fault(src: &mut Src, ctx: &mut RunCtx, solo: &Solo) -> RunResul
     let path = dir.path().join("capture.sigmf");
     let n = src.below(300);
     let data: Vec<u8> = (0..n * 8).map(|i| i as u8).collect();
-    let fault = src.below(9);
+    let fault = src.below(10);
     let bytes: Vec<u8> = match fault {
+        9 => {
+            // Well-formed archive, hostile metadata values: the datatype string
+            // in particular is compared and sliced by the constructor.
+            let dt: String = match src.below(4) {
+                0 => (*src.pick(&["", "u", "u8", "i8", "cf", "_be", "_le", "e_", "\\u00e9a_", "rf32\\u20ace", "rf32_be", "cf32", "cf32_be", "ri16_le", "cf64_le", "CF32_LE", " cf32_le", "cf32_le "])).to_string(),
+                1 => {
+                    let l = src.below(4);
+                    (0..l).map(|_| *src.pick(&['u', '8', '_', 'e', 'b', 'l', 'c', 'f'])).collect()
+                }
+                2 => {
+                    let l = src.below(12);
+                    (0..l).map(|_| *src.pick(&['r', 'c', 'f', 'i', 'u', '3', '2', '1', '6', '8', '_', 'l', 'b', 'e', '\u{e9}', '\u{20ac}'])).collect()
+                }
+                _ => "cf32_le".to_string(),
+            };
+            ctx.count("fault:hostile_datatype");
+            let meta = sigmf_meta("cf32_le").replace("cf32_le", &dt);
+            sigmf_archive(src, &meta, &data)
+        }
         0 => {
             let t = sigmf_archive(src, &sigmf_meta("cf32_le"), &data);
             let cut = src.below(t.len());
